@@ -1,2 +1,50 @@
+"""C07 structural rules R2-R3: who may announce a best move; one go per UciGo; no nested search."""
+from ..cfg import Cfg
+from ..expr import Exprs, show, leaves
+from ..callgraph import CallGraph, call_sites
+from .common import SEARCH, UCITX, count_calls_on_paths
+
+
 def run(ctx):
-    pass
+    prog = ctx.prog
+    rid = "C07.R2"
+    ctx.rule(rid, "UciTx::best_move is called only by Search::go (transmitter implementations may forward it)", floor=1)
+    impl_methods = {m["fn"] for i in prog.impls if i.get("trait") == "inkayaku_uci::uci::UciTx" for m in i["methods"].values()}
+    callers = set()
+    for caller, b, t in call_sites(prog, lambda k, o, c: o == UCITX + "best_move" or (k in impl_methods and k.endswith("::best_move"))):
+        f = prog.fns[caller]
+        if f.get("test") or caller in impl_methods:
+            continue
+        callers.add(caller)
+    ok = callers == {SEARCH + "go"}
+    ctx.ob(rid, "only-go-announces", ok, "" if ok else "best_move is announced by %s (expected only Search::go)" % sorted(callers), "", sample={"callers": sorted(callers)})
+    rid = "C07.R3"
+    ctx.rule(rid, "Search::idle starts exactly one search per UciGo message; nothing reachable from a running search starts another one", floor=3)
+    f = ctx.fn(rid, SEARCH + "idle")
+    cfg, ex = Cfg(f), Exprs(f)
+    gos = [b for b in sorted(cfg.reach) if f["blocks"][b]["term"]["k"] == "call" and f["blocks"][b]["term"]["callee"].get("key") == SEARCH + "go"]
+    recvs = [b for b in sorted(cfg.reach) if f["blocks"][b]["term"]["k"] == "call" and (f["blocks"][b]["term"]["callee"].get("key") or "").endswith("Receiver::recv")]
+    ok = len(gos) == 1 and len(recvs) == 1 and cfg.dominates(recvs[0], gos[0])
+    # between two go calls a recv must happen: removing the recv block, go cannot reach itself
+    if ok:
+        ok = gos[0] not in cfg.reachable_from(f["blocks"][gos[0]]["term"]["target"], avoid={recvs[0]})
+    ctx.ob(rid, "one-go-per-message", ok, "" if ok else "Search::idle: go calls %s, recv calls %s (a go must follow exactly one received message)" % (gos, recvs), ctx.where(f))
+    # the go arm is the UciGo variant of the message
+    variant_ok = False
+    if gos:
+        adt = prog.adts.get("inkayaku_engine_core::engine::search::SearchMessage")
+        names = [v["name"] for v in adt["variants"]] if adt else []
+        for (a, sb) in cfg.control_deps_transitive(gos[0]):
+            sw = f["blocks"][a]["term"]
+            if sw["k"] == "switch" and len(sw["targets"]) >= 4:
+                vals = [v for v, tb in sw["targets"] if tb == sb]
+                if len(vals) == 1 and vals[0] < len(names) and names[vals[0]] == "UciGo":
+                    variant_ok = True
+    ctx.ob(rid, "go-on-UciGo", variant_ok, "" if variant_ok else "the search is not started by the UciGo arm of the message match", ctx.where(f))
+    if not hasattr(ctx, "_cg"):
+        ctx._cg = CallGraph(prog)
+    cg = ctx._cg
+    below, _ = cg.reachable([SEARCH + "best_move", SEARCH + "check_messages", SEARCH + "reset_for_go"])
+    ok = SEARCH + "go" not in below and SEARCH + "idle" not in below
+    ctx.ob(rid, "no-nested-search", ok, "" if ok else "a running search can reach Search::go / idle again (nested search -> second bestmove)", ctx.where(prog.fns[SEARCH + "check_messages"]),
+           sample={"functions_below_a_running_search": len(below)})
